@@ -224,6 +224,7 @@ public:
     template <class InputIterator>
     void build_heap(InputIterator first, InputIterator last)
     {
+        reset_handles();
         heap_.assign(first, last);
         heapify();
     }
@@ -231,6 +232,7 @@ public:
     //! Builds a heap from the vector \c keys. Items of \c keys are copied.
     void build_heap(const std::vector<key_type>& keys)
     {
+        reset_handles();
         heap_.resize(keys.size());
         std::copy(keys.begin(), keys.end(), heap_.begin());
         heapify();
@@ -239,6 +241,7 @@ public:
     //! Builds a heap from the vector \c keys. Items of \c keys are moved.
     void build_heap(std::vector<key_type>&& keys)
     {
+        reset_handles();
         if (!empty())
             heap_.clear();
         heap_ = std::move(keys);
@@ -348,6 +351,14 @@ private:
         }
         handles_[value] = k;
         heap_[k] = std::move(value);
+    }
+
+    //! Marks the keys currently in the heap as not present (before the heap
+    //! array is replaced by build_heap).
+    void reset_handles()
+    {
+        for (const key_type& key : heap_)
+            handles_[key] = not_present();
     }
 
     //! Reorganize heap_ into a heap.
